@@ -115,6 +115,10 @@ func (c *Chain) newLFBTicket(b *block.Block) (ticket *LFBTicket) {
 }
 
 func (c *Chain) verifyLFBTicket(lfbt *LFBTicket) bool {
+	// only a sharder of the current magic block can issue LFB tickets
+	if !c.GetCurrentMagicBlock().Sharders.HasNode(lfbt.SharderID) {
+		return false
+	}
 	var sharder = node.GetNode(lfbt.SharderID)
 	if sharder == nil {
 		return false // unknown or missing node
